@@ -177,3 +177,31 @@ func verifHarness_C17_step() {
 		verifAssert(verifImplies(true, !vLive(st.t.i, st.actor) == st.actor.deleted || !st.actor.deleted), "deleted-actor-is-removed")
 	}
 }
+
+// C07 (replay half): applying an entry that is already marked as message of
+// death only advances the session's activity and duplicate-detection marker;
+// everything else is untouched and the step cannot panic.
+func verifHarness_C07_replay() {
+	mark := verifDrawMark()
+	a := vBuild(vRoleClient)
+	verifDrawRewind(mark)
+	b := vBuild(vRoleClient)
+	target := a.sess[0].Id
+	if nondetBool() {
+		target = robust.Id{Id: nondetU64()} // possibly a session that does not exist (any more)
+	}
+	rm := &robust.Message{
+		Id:              robust.Id{Id: nondetU64()},
+		Session:         target,
+		Type:            robust.MessageOfDeath,
+		Data:            vStr(a.L),
+		ClientMessageId: nondetU64(),
+		UnixNano:        nondetI64In(-(1 << 60), 1<<60),
+	}
+	// this is the whole MessageOfDeath case of FSM.applyRobustMessage
+	a.i.UpdateLastClientMessageID(rm)
+	verifAssert(verifDeepEq(a.i, b.i, "skip=Session.LastActivity,Session.LastNonPing,Session.lastClientMessageId"), "message-of-death-replay-touches-only-activity-and-marker")
+	if target == a.sess[0].Id {
+		verifAssert(a.i.LastPostMessage(target) == rm.ClientMessageId, "message-of-death-advances-the-duplicate-marker")
+	}
+}
